@@ -2,14 +2,43 @@
 Labelled bounded everywhere (evidence level 'exploration'); never counted as proved."""
 from __future__ import annotations
 
+import signal
 import time
 import traceback
+
+
+class CaseTimeout(BaseException):
+    pass
+
+
+class case_time_limit(object):
+    """per-case wall-clock guard (a changed function may not terminate); nests inside the worker's SIGALRM budget: the outer
+    timer and handler are restored with the time already spent deducted"""
+
+    def __init__(self, seconds):
+        self.seconds = seconds
+
+    def _handler(self, signum, frame):
+        raise CaseTimeout()
+
+    def __enter__(self):
+        self.t0 = time.time()
+        self.old_handler = signal.signal(signal.SIGALRM, self._handler)
+        self.old_left = signal.setitimer(signal.ITIMER_REAL, self.seconds)[0]
+
+    def __exit__(self, *a):
+        signal.setitimer(signal.ITIMER_REAL, 0)
+        signal.signal(signal.SIGALRM, self.old_handler)
+        if self.old_left:
+            signal.setitimer(signal.ITIMER_REAL, max(self.old_left - (time.time() - self.t0), 0.05))
+        return False
 
 
 class BoundedContract(object):
     """subclass: name, funcs (real functions under contract), cases() -> list, check(case) -> (ok, why, nontrivial)"""
     kind = "bounded"
     chunks = 1
+    CASE_SECONDS = 20
 
     def __init__(self, tid, chunk=0, nchunks=1, tier="quick"):
         self.id = tid if nchunks == 1 else "%s/chunk%d" % (tid, chunk)
@@ -45,11 +74,23 @@ class BoundedContract(object):
         known = [f for f in findings if f.get("status", "known") == "known" and self.base_id.startswith(f["target"])]
         nontrivial = 0
         n = 0
+        timeouts = 0
         try:
             for i, c in self.my_cases():
                 n += 1
                 try:
-                    r = self.check(c)
+                    with case_time_limit(self.CASE_SECONDS):
+                        r = self.check(c)
+                except CaseTimeout:
+                    r = (False, "does not terminate within %ds" % self.CASE_SECONDS, True)
+                    timeouts += 1
+                    if timeouts >= 3:
+                        # a non-terminating change fails many cases the same way: report the first ones and stop this chunk
+                        res["obligations"] += 1
+                        res["refuted"].append({"obligation": "%s/case%d" % (self.base_id, i), "model": {"index": i, "case": self.show(c)},
+                                               "backend": "runtime", "replay": {"status": "fails", "detail": r[1]}, "goal": r[1],
+                                               "pc": []})
+                        break
                 except Exception as e:      # noqa -- an exception escaping the contract wrapper is a failed case
                     r = (False, "raises %s: %s" % (type(e).__name__, str(e)[:200]), True)
                 ok, why = r[0], r[1]
@@ -91,7 +132,10 @@ class BoundedContract(object):
         i = int(rp["model"]["index"])
         cs = self.cases()
         try:
-            r = self.check(cs[i])
+            with case_time_limit(self.CASE_SECONDS):
+                r = self.check(cs[i])
+        except CaseTimeout:
+            r = (False, "does not terminate within %ds" % self.CASE_SECONDS)
         except Exception as e:      # noqa
             r = (False, "raises %r" % (e,))
         return {"status": "passes" if r[0] else "fails", "detail": r[1], "failed": []}
